@@ -1,0 +1,198 @@
+//go:build verif
+// +build verif
+
+package mqtt
+
+import (
+	"context"
+	"fmt"
+	"io"
+	"sync/atomic"
+)
+
+// This file is compiled only with the build tag "verif".
+// It exposes thin wrappers around unexported functions so that an external
+// verification harness can compare them with a formal model. Nothing here is
+// referenced by the library itself.
+
+// VerifRemainingLength exposes remainingLength.
+func VerifRemainingLength(n int) []byte { return remainingLength(n) }
+
+// VerifPack exposes pack.
+func VerifPack(packetType byte, contents ...[]byte) []byte { return pack(packetType, contents...) }
+
+// VerifReadPacket exposes readPacket.
+func VerifReadPacket(r io.Reader) (byte, byte, []byte, error) {
+	t, f, c, err := readPacket(r)
+	return byte(t), f, c, err
+}
+
+// VerifUnpackString exposes unpackString.
+func VerifUnpackString(b []byte) (int, string, error) { return unpackString(b) }
+
+// VerifPackConnect exposes pktConnect.Pack.
+func VerifPackConnect(level byte, clean bool, keepAlive uint16, clientID, user, pass string, will *Message) []byte {
+	return (&pktConnect{
+		ProtocolLevel: ProtocolLevel(level),
+		CleanSession:  clean,
+		KeepAlive:     keepAlive,
+		ClientID:      clientID,
+		UserName:      user,
+		Password:      pass,
+		Will:          will,
+	}).Pack()
+}
+
+// VerifPackPublish exposes pktPublish.Pack.
+func VerifPackPublish(m *Message) []byte { return (&pktPublish{Message: m}).Pack() }
+
+// VerifPackSubscribe exposes pktSubscribe.Pack.
+func VerifPackSubscribe(id uint16, subs []Subscription) []byte {
+	return (&pktSubscribe{ID: id, Subscriptions: subs}).Pack()
+}
+
+// VerifPackUnsubscribe exposes pktUnsubscribe.Pack.
+func VerifPackUnsubscribe(id uint16, topics []string) []byte {
+	return (&pktUnsubscribe{ID: id, Topics: topics}).Pack()
+}
+
+// VerifPackAck exposes the Pack methods of PUBACK/PUBREC/PUBREL/PUBCOMP.
+func VerifPackAck(kind byte, id uint16) []byte {
+	switch packetType(kind) {
+	case packetPubAck:
+		return (&pktPubAck{ID: id}).Pack()
+	case packetPubRec:
+		return (&pktPubRec{ID: id}).Pack()
+	case packetPubRel:
+		return (&pktPubRel{ID: id}).Pack()
+	case packetPubComp:
+		return (&pktPubComp{ID: id}).Pack()
+	}
+	return nil
+}
+
+// VerifPackEmpty exposes the packing of PINGREQ / DISCONNECT.
+func VerifPackEmpty(kind byte) []byte { return pack(kind) }
+
+// VerifParse runs the parser of the given packet type on (flag, contents) and
+// renders the parsed value canonically.
+func VerifParse(kind byte, flag byte, contents []byte) (string, error) {
+	switch packetType(kind) {
+	case packetConnAck:
+		p, err := (&pktConnAck{}).Parse(flag, contents)
+		if err != nil {
+			return "", err
+		}
+		return fmt.Sprintf("connack sp=%v code=%d", p.SessionPresent, int(p.Code)), nil
+	case packetPublish:
+		p, err := (&pktPublish{}).Parse(flag, contents)
+		if err != nil {
+			return "", err
+		}
+		m := p.Message
+		return fmt.Sprintf("publish topic=%x id=%d qos=%d retain=%v dup=%v payload=%x",
+			[]byte(m.Topic), m.ID, int(m.QoS), m.Retain, m.Dup, m.Payload), nil
+	case packetPubAck:
+		p, err := (&pktPubAck{}).Parse(flag, contents)
+		if err != nil {
+			return "", err
+		}
+		return fmt.Sprintf("puback id=%d", p.ID), nil
+	case packetPubRec:
+		p, err := (&pktPubRec{}).Parse(flag, contents)
+		if err != nil {
+			return "", err
+		}
+		return fmt.Sprintf("pubrec id=%d", p.ID), nil
+	case packetPubRel:
+		p, err := (&pktPubRel{}).Parse(flag, contents)
+		if err != nil {
+			return "", err
+		}
+		return fmt.Sprintf("pubrel id=%d", p.ID), nil
+	case packetPubComp:
+		p, err := (&pktPubComp{}).Parse(flag, contents)
+		if err != nil {
+			return "", err
+		}
+		return fmt.Sprintf("pubcomp id=%d", p.ID), nil
+	case packetSubAck:
+		p, err := (&pktSubAck{}).Parse(flag, contents)
+		if err != nil {
+			return "", err
+		}
+		s := fmt.Sprintf("suback id=%d codes=", p.ID)
+		for _, c := range p.Codes {
+			s += fmt.Sprintf("%02x", byte(c))
+		}
+		return s, nil
+	case packetUnsubAck:
+		p, err := (&pktUnsubAck{}).Parse(flag, contents)
+		if err != nil {
+			return "", err
+		}
+		return fmt.Sprintf("unsuback id=%d", p.ID), nil
+	case packetPingResp:
+		_, err := (&pktPingResp{}).Parse(flag, contents)
+		if err != nil {
+			return "", err
+		}
+		return "pingresp", nil
+	}
+	return "", wrapErrorf(ErrInvalidPacket, "serving incoming packet %x", int(kind))
+}
+
+// VerifNewTopicFilter exposes newTopicFilter.
+func VerifNewTopicFilter(s string) ([]string, error) {
+	f, err := newTopicFilter(s)
+	return []string(f), err
+}
+
+// VerifMatch exposes topicFilter.Match.
+func VerifMatch(filter []string, topic string) bool { return topicFilter(filter).Match(topic) }
+
+// VerifApplySubs exposes subscriptions.applyTo.
+func VerifApplySubs(d []Subscription, s []Subscription) []Subscription {
+	dd := subscriptions(d)
+	subscriptions(s).applyTo(&dd)
+	return []Subscription(dd)
+}
+
+// VerifApplyUnsubs exposes unsubscriptions.applyTo.
+func VerifApplyUnsubs(d []Subscription, s []string) []Subscription {
+	dd := subscriptions(d)
+	unsubscriptions(s).applyTo(&dd)
+	return []Subscription(dd)
+}
+
+// VerifSetIDLast sets the packet id counter.
+func (c *BaseClient) VerifSetIDLast(v uint32) { atomic.StoreUint32(&c.idLast, v) }
+
+// VerifIDLast reads the packet id counter.
+func (c *BaseClient) VerifIDLast() uint32 { return atomic.LoadUint32(&c.idLast) }
+
+// VerifNewID exposes newID.
+func (c *BaseClient) VerifNewID() uint16 { return c.newID() }
+
+// VerifInitID exposes initID.
+func (c *BaseClient) VerifInitID() { c.initID() }
+
+// VerifWrapError exposes wrapError.
+func VerifWrapError(err error, failure string) error { return wrapError(err, failure) }
+
+// VerifWrapErrorf exposes wrapErrorf.
+func VerifWrapErrorf(err error, f string, v ...interface{}) error { return wrapErrorf(err, f, v...) }
+
+// VerifWrapErrorWithRetry exposes wrapErrorWithRetry.
+func VerifWrapErrorWithRetry(err error, retry func(context.Context, *BaseClient) error, failure string) error {
+	return wrapErrorWithRetry(err, retry, failure)
+}
+
+// VerifNewRequestTimeoutError builds the error produced by an expired
+// RetryClient.ResponseTimeout request context.
+func VerifNewRequestTimeoutError(c *RetryClient, parent context.Context) (context.Context, func()) {
+	return c.requestContext(parent)
+}
+
+// VerifClone exposes Message.clone.
+func VerifClone(m *Message) *Message { return m.clone() }
